@@ -474,7 +474,7 @@ class SQLiteStorage(SQLiteMixin):
         total, network_size, content_size, private_size = await self.db.execute_fetchone("""
         select coalesce(sum(blob_length), 0) as total,
                coalesce(sum(case when
-                   stream_blob.stream_hash is null
+                   stream_blob.stream_hash is null and is_mine=0
                then blob_length else 0 end), 0) as network_storage,
                coalesce(sum(case when
                    stream_blob.blob_hash is not null and is_mine=0
